@@ -148,6 +148,9 @@ pub struct Meta {
     /// the 64-bit size header with probability 1/3 (deterministic in the seed)
     #[serde(default)]
     pub large_seed: u64,
+    /// name of the meta box's hdlr
+    #[serde(default)]
+    pub hdlr_name: String,
 }
 
 /// decides, per box of the udta subtree, whether it uses the 64-bit size header
@@ -206,6 +209,16 @@ pub struct Movie {
     /// every moof (and its mdat) uses the 64-bit size header form
     #[serde(default)]
     pub large_moof: bool,
+    /// when the last top-level box of the single-stream file is an mdat with a compact header, its
+    /// size field is written as 0 ("extends to the end of the file", ISO/IEC 14496-12 4.2)
+    #[serde(default)]
+    pub last_to_eof: bool,
+    /// name written into every track's hdlr box (None: "ref")
+    #[serde(default)]
+    pub hdlr_name: Option<String>,
+    /// a meta box placed directly in moov (not user data), before (true) or after (false) udta
+    #[serde(default)]
+    pub moov_meta: Option<(Meta, bool)>,
 }
 
 #[derive(Clone, Debug, Serialize, PartialEq, Eq)]
@@ -364,7 +377,7 @@ fn trak_node(m: &Movie, ti: usize, pl: &Placement) -> Node {
     let tkhd = Node::leaf("tkhd", enc_tkhd(v_t, 7, 0, 0, t.id, movie_dur, 0, 0, if t.codec.handler() == cc("soun") { 0x0100 } else { 0 }, &UNITY_MATRIX, (w as u32) << 16, (h as u32) << 16));
     let v_m = if media_dur > u32::MAX as u64 { 1 } else { 0 };
     let mdhd = Node::leaf("mdhd", enc_mdhd(v_m, 0, 0, 0, t.timescale, media_dur, &lang_ok(&t.lang)));
-    let hdlr = Node::leaf("hdlr", enc_hdlr(0, 0, t.codec.handler(), "ref"));
+    let hdlr = Node::leaf("hdlr", enc_hdlr(0, 0, t.codec.handler(), m.hdlr_name.as_deref().unwrap_or("ref")));
     let mh = match t.codec.handler() {
         x if x == cc("vide") => Node::leaf("vmhd", enc_vmhd(0, 1, 0, [0; 3])),
         x if x == cc("soun") => Node::leaf("smhd", enc_smhd(0, 0, 0)),
@@ -424,7 +437,7 @@ pub fn meta_node(me: &Meta) -> Node {
 }
 
 pub fn meta_node_with(me: &Meta, lp: &mut LargePick) -> Node {
-    let hdlr = lp.mark(Node::leaf("hdlr", enc_hdlr(0, 0, me.handler, "")));
+    let hdlr = lp.mark(Node::leaf("hdlr", enc_hdlr(0, 0, me.handler, &me.hdlr_name)));
     let mut kids: Vec<Node> = Vec::new();
     let ilst = me.items.as_ref().map(|items| {
         let mut ch = Vec::new();
@@ -478,6 +491,9 @@ fn moov_node(m: &Movie, pl: &Placement) -> Node {
         }
         kids.push(Node::container("mvex", mv));
     }
+    if let Some((mm, true)) = &m.moov_meta {
+        kids.push(meta_node(mm));
+    }
     if let Some(me) = &m.meta {
         let mut lp = LargePick::new(me.large_seed);
         let mut uk: Vec<Node> = Vec::new();
@@ -486,6 +502,9 @@ fn moov_node(m: &Movie, pl: &Placement) -> Node {
         }
         uk.push(meta_node_with(me, &mut lp));
         kids.push(lp.mark(Node::container("udta", uk)));
+    }
+    if let Some((mm, false)) = &m.moov_meta {
+        kids.push(meta_node(mm));
     }
     Node::container("moov", kids)
 }
@@ -872,6 +891,14 @@ pub fn build(m: &Movie) -> Built {
     let mut bytes = Vec::new();
     for n in &top {
         n.render_into(&mut bytes);
+    }
+    if m.last_to_eof {
+        if let Some(last) = top.last() {
+            if last.typ == cc("mdat") && !last.large {
+                let at = bytes.len() - last.size() as usize;
+                bytes[at..at + 4].copy_from_slice(&[0, 0, 0, 0]);
+            }
+        }
     }
     // init length: the init part ends after the later of moov and the main mdat (the main mdat is
     // always the first mdat in the list when it exists)
